@@ -44,6 +44,11 @@ def main():
     cfg = {'tier': tier, 'seed': seed, 'cvc5': tier == 'thorough',
            'query_timeout_ms': 60000 if tier == 'quick' else 600000}
     mod = importlib.import_module('props.' + pid)
+    rdir = os.path.join(VERIF, 'evidence', 'replays')
+    if os.path.isdir(rdir):
+        for f in os.listdir(rdir):
+            if f.startswith(pid + '-'):
+                os.unlink(os.path.join(rdir, f))
     evidence = {
         'property_id': pid, 'tier': tier, 'seed': seed, 'level': 'model_checking',
         'coverage': {}, 'assumptions': [], 'wall_s': 0.0, 'violations': 0,
@@ -183,4 +188,12 @@ COMMON_ASSUMPTIONS = [
 ]
 
 if __name__ == '__main__':
-    main()
+    try:
+        main()
+    except SystemExit:
+        raise
+    except BaseException as e:   # a crash of the machinery is never a verdict
+        import traceback
+        traceback.print_exc()
+        print('INCONCLUSIVE internal error: %r' % (e,))
+        sys.exit(2)
